@@ -2,11 +2,11 @@ package props
 
 import (
 	"bufio"
-	"io"
-	"strings"
 	"bytes"
 	"errors"
 	"fmt"
+	"io"
+	"strings"
 
 	"github.com/RoaringBitmap/roaring"
 	segment "github.com/blugelabs/bluge_segment_api"
@@ -32,18 +32,18 @@ var errInjected = errors.New("injected write failure")
 // faultWriter accepts exactly failAt bytes (failAt < 0: never fails). whole: a write crossing the
 // limit is rejected entirely. onBytes is invoked with the running total after every accepted write.
 type faultWriter struct {
-	buf     []byte
-	failAt  int
-	whole   bool
+	buf    []byte
+	failAt int
+	whole  bool
 	// transient: only the one write that crosses failAt fails; every later write is accepted again
 	// (otherwise fail-stop: after the first error every later write fails too)
 	transient bool
 	tripped   bool
 	failed    bool
-	hits    int
-	closeAt int // -1: never; close ch when total accepted bytes >= closeAt (checked before and after each write)
-	ch      chan struct{}
-	closed  bool
+	hits      int
+	closeAt   int // -1: never; close ch when total accepted bytes >= closeAt (checked before and after each write)
+	ch        chan struct{}
+	closed    bool
 }
 
 func (w *faultWriter) maybeClose() {
